@@ -365,7 +365,7 @@ def run_unit(args):
         res["qual"] = unit.qual
         res["functions"] = list(unit.functions)
         res["kind"] = unit.kind
-        I = S.new_interp(P)
+        I = S.new_interp(P, unit)
         _TIMEOUT = 10000 if tier == "quick" else 60000
         obls = res["obligations"]
 
@@ -470,7 +470,7 @@ def replay(P, pid, label, fail, outdir):
            "branches": fail.get("branches"), "goal": fail.get("goal"), "witness": fail.get("witness"),
            "solver_model": fail.get("model"), "solver": fail.get("backend"), "reason": fail.get("reason"), "details": fail.get("details")}
     reproduced, out = None, ""
-    script = os.path.join(VERIF, "replay", f"{pid}.py")
+    script = os.path.join(VERIF, "replay", f"{(fail.get('details') or {}).get('replay_script') or pid}.py")
     if fail.get("witness") is not None and os.path.exists(script):
         with open(path, "w") as f:
             json.dump(doc, f, indent=1, default=str)
@@ -490,7 +490,7 @@ def replay(P, pid, label, fail, outdir):
 
 def witness_search(pid, label, fail, outdir, seed, tier):
     """bounded search for a failing input on the real code (replay/<pid>.py --search); a replay aid only"""
-    script = os.path.join(VERIF, "replay", f"{pid}.py")
+    script = os.path.join(VERIF, "replay", f"{(fail.get('details') or {}).get('replay_script') or pid}.py")
     if not os.path.exists(script) or "--search" not in open(script).read():
         return None
     os.makedirs(outdir, exist_ok=True)
